@@ -69,6 +69,15 @@ theorem catalogue_described : Gen.catalogue.all entryDescribed = true := by deci
 /-- the catalogue dump met no surprise (every builder produced exactly one issue) -/
 theorem catalogue_well_formed : Gen.catalogue.all (fun e => e.ok) = true ∧ Gen.catalogue.length ≥ 60 := by decide
 
+/-- **User-defined tests and custom schemas.** A test with the user's own issue code (which no language
+    table can list) on every schema type, and `z.CustomFunc` schemas (failing test, type mismatch): the
+    type's fallback template exists, is non-empty and has no placeholder — in every shipped language. -/
+theorem user_tests_complete_en : Gen.userCatalogue.all (entryOK Gen.enMapC) = true := by decide
+theorem user_tests_complete_es : Gen.userCatalogue.all (entryOK Gen.esMapC) = true := by decide
+theorem user_tests_complete_default : Gen.userCatalogue.all (entryOK Gen.defaultMapC) = true := by decide
+theorem user_tests_described :
+    Gen.userCatalogue.all (fun e => e.ok && entryDescribed e) = true ∧ Gen.userCatalogue.length ≥ 10 := by decide
+
 def allTemplates (m : CMap) : List (List Char) := m.flatMap (fun p => p.2.map (·.2))
 
 /-- no shipped template mentions `{{value}}`: the message does not depend on the `%v` rendering of
